@@ -501,8 +501,9 @@ def getConstants {V : Type} : Nat → List (String × PVal V) → (String → Op
 /-! ## 4b. the setters of `rMin` / `rMax` and a value of `rp` given in the file
 
 `Constants.rMin` / `Constants.rMax` are properties: their setters also assign `rp = 0.5*(rMin + rMax)` as soon as both ends
-are known (constants.py:45-63), also when `set_defaults` assigns them.  `get_constants` therefore applies an `rp` of the file
-once more after the sweeps and the defaults (constants.py, finding F25).  `mid` stands for `fun a b => 0.5*(a + b)`. -/
+are known (constants.py:45-63), also when `set_defaults` assigns them.  `get_constants` therefore keeps an `rp` of the file apart
+(findings F25, F29): while the file is read `rp` stays unset until its own entry has been read and keeps that value afterwards, and
+it is assigned once more after the defaults.  `mid` stands for `fun a b => 0.5*(a + b)`. -/
 
 /-- `setattr(constants, k, v)` -/
 def setAttr {V : Type} (mid : V → V → V) (env : String → Option V) (k : String) (v : V) : String → Option V :=
@@ -539,9 +540,48 @@ def applyDefaults {V : Type} (set : (String → Option V) → String → V → (
     (env : String → Option V) : String → Option V :=
   defaults.foldl (fun e kv => if (e kv.1).isNone then set e kv.1 kv.2 else e) env
 
-/-- `get_constants` up to `getCN0`: the sweeps, `set_defaults`, then `rp` of the file (if any) once more:
-    `constants.rp = eval_expr(rp, constants) if isinstance(rp, str) else rp` -/
+/-- `assign(key, val)` of `get_constants` (finding F29): `setattr`, and — when the file gives `rp` — after an assignment of `rMin` or
+    `rMax` (whose setters move `rp`) `rp` is put back to what it was: unset until the value of the file has been read, that value
+    afterwards -/
+def assignB {V : Type} (mid : V → V → V) (given : Bool) (env : String → Option V) (k : String) (v : V) : String → Option V :=
+  if given && (k == "rMin" || k == "rMax") then
+    fun k' => if k' = "rp" then env "rp" else setAttr mid env k v k'
+  else setAttr mid env k v
+
+def sweepB {V : Type} (mid : V → V → V) (given : Bool) : List (String × PVal V) → (String → Option V) → List (String × PVal V) →
+    (String → Option V) × List (String × PVal V)
+  | [], env, unmatched => (env, unmatched)
+  | (k, pv) :: rest, env, unmatched =>
+    match evalP env pv with
+    | some v => sweepB mid given rest (assignB mid given env k v) unmatched
+    | none => sweepB mid given rest env (unmatched ++ [(k, pv)])
+
+def getConstantsB {V : Type} (mid : V → V → V) (given : Bool) : Nat → List (String × PVal V) → (String → Option V) →
+    Option (String → Option V)
+  | _, [], env => some env
+  | 0, _ :: _, _ => none
+  | fuel + 1, data, env =>
+    let (env', unmatched) := sweepB mid given data.reverse env []
+    if unmatched.length < data.length then getConstantsB mid given fuel unmatched env' else none
+
+/-- `get_constants` up to `getCN0` as it is now: the sweeps with `assign`, `set_defaults` (through the setters), and — when the file
+    gives `rp` — `constants.rp = rp[0]` once more (the defaults of `rMin` / `rMax` may have moved it) -/
 def getConstantsRp {V : Type} (mid : V → V → V) (defaults : List (String × V)) (fuel : Nat) (data : List (String × PVal V)) :
+    Option (String → Option V) :=
+  let given := (data.lookup "rp").isSome
+  match getConstantsB mid given fuel data (fun _ => none) with
+  | none => none
+  | some env =>
+    let env' := applyDefaults (setAttr mid) defaults env
+    if given then some (fun k => if k = "rp" then env "rp" else env' k) else some env'
+
+/-- the parser before the fix F25: sweeps and defaults only -/
+def getConstantsOld {V : Type} (mid : V → V → V) (defaults : List (String × V)) (fuel : Nat) (data : List (String × PVal V)) :
+    Option (String → Option V) :=
+  (getConstantsA mid fuel data (fun _ => none)).map (applyDefaults (setAttr mid) defaults)
+
+/-- the parser between the fixes F25 and F29: sweeps with the plain setters, defaults, then the ENTRY of `rp` evaluated once more -/
+def getConstantsF25 {V : Type} (mid : V → V → V) (defaults : List (String × V)) (fuel : Nat) (data : List (String × PVal V)) :
     Option (String → Option V) :=
   match getConstantsA mid fuel data (fun _ => none) with
   | none => none
@@ -550,10 +590,5 @@ def getConstantsRp {V : Type} (mid : V → V → V) (defaults : List (String × 
     match data.lookup "rp" with
     | none => some env'
     | some pv => some (fun k => if k = "rp" then evalP env' pv else env' k)
-
-/-- the parser before the fix F25: sweeps and defaults only -/
-def getConstantsOld {V : Type} (mid : V → V → V) (defaults : List (String × V)) (fuel : Nat) (data : List (String × PVal V)) :
-    Option (String → Option V) :=
-  (getConstantsA mid fuel data (fun _ => none)).map (applyDefaults (setAttr mid) defaults)
 
 end PygyroVerif.Ckpt
